@@ -131,7 +131,12 @@ class StmtMixin:
             self.ex_block(st.orelse, env)
 
     def ex_FunctionDef(self, st, env):
-        env.set(st.name, VFunc("ast", st.name, node=st, env=env, module=env.module))
+        # a nested def is addressed as <enclosing function>.<name>: a contract registered under that name is used at its call sites
+        outer = self.frames[-1]["fid"].split(":", 1)[1] if self.frames and ":" in self.frames[-1].get("fid", "") else None
+        f = VFunc("ast", st.name, node=st, env=env, module=env.module)
+        if outer and not outer.startswith("<"):
+            f.qual = f"{outer}.{st.name}"
+        env.set(st.name, f)
 
     def ex_Delete(self, st, env):
         raise OutOfSubset("del")
